@@ -74,6 +74,8 @@ RULE = (
 EXTRA_TRUSTED = [
     "np.linalg.svd contract (U unitary, S non-negative non-increasing, A = U diag(S) V^H): hypotheses of C06_convention / C06_faithful_partial, validated numerically by the oracle at 1e-9",
     "np.abs of a complex number replaced by its square in the model's argmax (monotone)",
+    "C06Faithful: SvdContract / SqrtOn are hypotheses (the theorems derive non-negativity, ordering, unitarity of S_vec and the decompositions from them); "
+    "every np.linalg.svd call recorded by the correspondence is checked against SvdContract at 1e-12 (ctx.contract)",
 ]
 ASSUMPTIONS = [
     "near-ties (relative 1e-9) of band-edge distances, singular-value ratios and component magnitudes are not judged",
